@@ -28,6 +28,10 @@ type c11Extra struct {
 	Fault    string            `json:"fault"`    // "", read.session, read.cookie, write.session, write.cookie
 	Session  map[string]string `json:"session"`
 	Cookie   map[string]string `json:"cookie"`
+	// Prelude is the handler program of an earlier request served through the
+	// same middleware value (it may end in a panic, which the server
+	// recovers); the request under test must not be affected by it
+	Prelude []Step `json:"prelude,omitempty"`
 }
 
 type c11Rec struct {
@@ -38,10 +42,13 @@ type c11Rec struct {
 	body    strings.Builder
 	hdrAtWr http.Header
 	reads   []string
+	step    int          // index of the program step being executed
+	flushed map[int]bool // program steps whose flush reached the server's writer
 }
 
 type c11Call struct {
 	seq   int
+	step  int // program step during which the store was written
 	store string
 	evs   []authboss.ClientStateEvent
 }
@@ -66,7 +73,7 @@ func (s *c11Store) ReadState(r *http.Request) (authboss.ClientState, error) {
 
 func (s *c11Store) WriteState(w http.ResponseWriter, st authboss.ClientState, evs []authboss.ClientStateEvent) error {
 	s.rec.seq++
-	s.rec.calls = append(s.rec.calls, c11Call{seq: s.rec.seq, store: s.kind, evs: append([]authboss.ClientStateEvent(nil), evs...)})
+	s.rec.calls = append(s.rec.calls, c11Call{seq: s.rec.seq, step: s.rec.step, store: s.kind, evs: append([]authboss.ClientStateEvent(nil), evs...)})
 	if s.fault == "write."+s.kind {
 		return errors.New("sim: store write failure")
 	}
@@ -103,6 +110,23 @@ func (u *c11Under) Write(b []byte) (int, error) {
 	return len(b), nil
 }
 
+// Flush: the server releases what it has buffered - at least the status line
+// and the header.
+func (u *c11Under) Flush() {
+	u.rec.seq++
+	if u.rec.firstWr == 0 {
+		u.rec.firstWr = u.rec.seq
+		u.rec.hdrAtWr = u.hdr.Clone()
+	}
+	if u.rec.status == 0 {
+		u.rec.status = 200
+	}
+	if u.rec.flushed == nil {
+		u.rec.flushed = map[int]bool{}
+	}
+	u.rec.flushed[u.rec.step] = true
+}
+
 // the two documented unwrapping styles
 type wrapUnderlying struct{ inner http.ResponseWriter }
 
@@ -133,6 +157,7 @@ func c11Exec(plan Plan) *RunResult {
 	ran := false
 	var wrErrs []string
 	var panicVal interface{}
+	var cur []Step // the program of the request being served
 	h := ab.LoadClientStateMiddleware(http.HandlerFunc(func(w http.ResponseWriter, r *http.Request) {
 		ran = true
 		for _, kind := range ex.Wrappers {
@@ -142,9 +167,23 @@ func c11Exec(plan Plan) *RunResult {
 				w = wrapUnderlying{w}
 			}
 		}
-		for _, st := range plan.Steps {
+		for i, st := range cur {
 			store, key, val := st.str("store"), st.str("key"), st.str("val")
+			rec.step = i
 			switch st.Kind {
+			case "panic":
+				panic("sim: the handler panics")
+			case "flush":
+				// a streaming handler releases the header early: through
+				// http.ResponseController (which follows Unwrap) or the
+				// http.Flusher assertion
+				if st.str("via") == "assert" {
+					if f, ok := w.(http.Flusher); ok {
+						f.Flush()
+					}
+				} else {
+					http.NewResponseController(w).Flush()
+				}
 			case "put":
 				if store == "session" {
 					authboss.PutSession(w, key, val)
@@ -185,6 +224,23 @@ func c11Exec(plan Plan) *RunResult {
 			}
 		}
 	}))
+	if len(ex.Prelude) > 0 {
+		// an earlier request of another visitor through the same middleware
+		cur = ex.Prelude
+		func() {
+			defer func() { recover() }()
+			h.ServeHTTP(&c11Under{rec: &c11Rec{}, hdr: http.Header{}}, httptest.NewRequest("GET", "/earlier", nil))
+		}()
+		*rec = c11Rec{}
+		ran, wrErrs = false, nil
+		res.Stats.Reach["c11_earlier_request"]++
+		for _, st := range ex.Prelude {
+			if st.Kind == "panic" {
+				res.Stats.Reach["c11_earlier_request_panicked"]++
+			}
+		}
+	}
+	cur = plan.Steps
 	func() {
 		defer func() { panicVal = recover() }()
 		h.ServeHTTP(under, httptest.NewRequest("GET", "/", nil))
@@ -198,10 +254,29 @@ func c11Exec(plan Plan) *RunResult {
 	var expBody strings.Builder
 	expStatus := 0
 	expHdr := http.Header{}
-	for _, st := range plan.Steps {
+	for i, st := range plan.Steps {
 		store, key, val := st.str("store"), st.str("key"), st.str("val")
 		ev := authboss.ClientStateEvent{Key: key}
 		switch st.Kind {
+		case "flush":
+			// a flush that reached the server's writer released the header:
+			// it is the handler's first write if nothing was written before
+			// (or tried to: a store that fails while the state is delivered
+			// for the flush ends the flush, the delivery has happened)
+			delivering := false
+			for _, c := range rec.calls {
+				if c.step == i {
+					delivering = true
+				}
+			}
+			if rec.flushed[i] || delivering {
+				if !wrote && expStatus == 0 && rec.flushed[i] {
+					expStatus = 200
+				}
+				wrote = true
+				res.Stats.Reach["c11_flush_reached_server"]++
+			}
+			continue
 		case "put":
 			ev.Kind, ev.Value = authboss.ClientStateEventPut, val
 		case "del":
@@ -376,7 +451,9 @@ func c11Generate(seed uint64, tier string) Plan {
 	for i := 0; i < n; i++ {
 		store := []string{"session", "cookie"}[r.Intn(2)]
 		key := keys[r.Intn(len(keys))]
-		switch r.Weighted([]int{8, 4, 2, 2, 2, 3, 3}) {
+		switch r.Weighted([]int{8, 4, 2, 2, 2, 3, 3, 1}) {
+		case 7:
+			prog = append(prog, Step{Kind: "flush", Str: map[string]string{"via": []string{"controller", "controller", "assert"}[r.Intn(3)]}})
 		case 0:
 			prog = append(prog, Step{Kind: "put", Str: map[string]string{"store": store, "key": key, "val": fmt.Sprintf("v%d", r.Intn(50))}})
 		case 1:
@@ -395,6 +472,28 @@ func c11Generate(seed uint64, tier string) Plan {
 			prog = append(prog, Step{Kind: "write", Str: map[string]string{"data": data}})
 		case 6:
 			prog = append(prog, Step{Kind: "read", Str: map[string]string{"store": store, "key": key}})
+		}
+	}
+	if r.Chance(1, 3) {
+		// an earlier request through the same middleware: some changes, maybe a
+		// first write, maybe a panic before or after it
+		m := 1 + r.Intn(5)
+		for i := 0; i < m; i++ {
+			store := []string{"session", "cookie"}[r.Intn(2)]
+			key := keys[r.Intn(len(keys))]
+			switch r.Intn(5) {
+			case 0, 1:
+				ex.Prelude = append(ex.Prelude, Step{Kind: "put", Str: map[string]string{"store": store, "key": key, "val": fmt.Sprintf("earlier%d", r.Intn(50))}})
+			case 2:
+				ex.Prelude = append(ex.Prelude, Step{Kind: "del", Str: map[string]string{"store": store, "key": key}})
+			case 3:
+				ex.Prelude = append(ex.Prelude, Step{Kind: "write", Str: map[string]string{"data": "earlier;"}})
+			case 4:
+				ex.Prelude = append(ex.Prelude, Step{Kind: "writeheader", Str: map[string]string{"code": "200"}})
+			}
+		}
+		if r.Bool() {
+			ex.Prelude = append(ex.Prelude, Step{Kind: "panic"})
 		}
 	}
 	b, _ := json.Marshal(ex)
